@@ -94,6 +94,11 @@ func (StreamingCRLFileReader) ReadCRL(crlProcessor CRLProcessor, crlFilePath str
 	if err != nil {
 		return nil, err
 	}
+	if !tbsCertListTL.Length.Length.IsInt64() {
+		return nil, errors.New("length of tbsCertList is too large")
+	}
+	//optional fields of tbsCertList are only looked for before this position
+	tbsCertListEnd := reader.BytesRead() + tbsCertListTL.Length.Length.Int64()
 	version := 1
 	if versionExists(reader) {
 		version, err = parseVersion(reader, version)
@@ -132,7 +137,7 @@ func (StreamingCRLFileReader) ReadCRL(crlProcessor CRLProcessor, crlFilePath str
 	if err != nil {
 		return nil, err
 	}
-	if revokedCertificateListExists(reader) {
+	if reader.BytesRead() < tbsCertListEnd && revokedCertificateListExists(reader) {
 		err := parseRevokedCertificateList(issuer, reader, crlProcessor)
 		if err != nil {
 			return nil, err
@@ -140,7 +145,7 @@ func (StreamingCRLFileReader) ReadCRL(crlProcessor CRLProcessor, crlFilePath str
 	}
 	var crlExtensions *[]pkix.Extension = nil
 	var crlNumber *big.Int = nil
-	if extensionsExists(reader, version) {
+	if reader.BytesRead() < tbsCertListEnd && extensionsExists(reader, version) {
 		crlExtensions, err = parseExtensions(reader)
 		if err != nil {
 			return nil, err
@@ -259,7 +264,11 @@ func parseRevokedCertificateList(issuer *pkix.RDNSequence, reader hashing.Hashin
 	if err != nil {
 		return err
 	}
-	for {
+	if !revokedCertListTag.Length.Length.IsInt64() {
+		return errors.New("length of revokedCertificates is too large")
+	}
+	revokedCertListEnd := reader.BytesRead() + revokedCertListTag.Length.Length.Int64()
+	for reader.BytesRead() < revokedCertListEnd {
 		revokedCertSeq, err := asn1parser.PeekTagLength(&reader, 0)
 		if err != nil {
 			return err
@@ -331,19 +340,13 @@ func readAlgorithmIdentifier(reader asn1parser.Asn1Reader) (*pkix.AlgorithmIdent
 }
 
 func newHashingDERCRLReader(crlFile *os.File) hashing.HashingReaderWrapper {
-	var reader = hashing.HashingReaderWrapper{
-		Reader: bufio.NewReader(crlFile),
-	}
-	return reader
+	return hashing.NewHashingReaderWrapper(bufio.NewReader(crlFile))
 }
 
 func newHashingPEMCRLReader(crlFile *os.File) hashing.HashingReaderWrapper {
 	pemReader := pemreader.NewPemReader(bufio.NewReader(crlFile))
 	decoder := base64.NewDecoder(base64.StdEncoding, &pemReader)
 
-	var reader = hashing.HashingReaderWrapper{
-		Reader: bufio.NewReader(decoder),
-	}
-	return reader
+	return hashing.NewHashingReaderWrapper(bufio.NewReader(decoder))
 
 }
